@@ -141,6 +141,31 @@ func c17NewEig(model int, pi []float64) (*c17Eig, error) {
 	return e, nil
 }
 
+// c17IndepEig builds the eigen-system of the textbook process itself: the rate matrix
+// is assembled by the harness from the model's exchangeabilities and the frequencies in
+// force, scaled to one expected substitution per unit time, and decomposed by the
+// harness' own symmetric Jacobi solver (shared with C18).  problem != "" when the
+// frequencies are outside the open simplex (then the caller falls back on the
+// eigen-system exported by models/protein).
+func c17IndepEig(model int, pi []float64) (e *c17Eig, problem string) {
+	o, problem := c18Textbook(c18Case{Model: c17ModelNames[model], Pi: pi})
+	if problem != "" {
+		return nil, problem
+	}
+	sp, n := o.spec, 20
+	e = &c17Eig{}
+	for i := 0; i < n; i++ {
+		e.pi[i] = o.stat[i]
+		e.val[i] = sp.lambda[i]
+		for k := 0; k < n; k++ {
+			e.right[i][k] = sp.v.a[i*n+k] / sp.sq[i]
+			e.left[k][i] = sp.v.a[i*n+k] * sp.sq[i]
+		}
+	}
+	e.val[0] = 0 // the stationary mode
+	return e, ""
+}
+
 // factors: E[exp(lambda_k * r * d)] for r = 1 (no gamma) or r ~ Gamma(shape
 // alpha, mean 1), whose moment generating function gives (1 - lambda d/alpha)^-alpha.
 func (e *c17Eig) factors(d, alpha float64, f *[20]float64) {
@@ -464,12 +489,23 @@ func (k *c17Checker) single(r *c17Res) {
 				var err error
 				if cs.ModelFreqs {
 					if eig = c17EigCache[cs.Model]; eig == nil {
-						if eig, err = c17NewEig(cs.Model, nil); err == nil {
+						var problem string
+						if eig, problem = c17IndepEig(cs.Model, nil); problem != "" {
+							eig, err = c17NewEig(cs.Model, nil)
+							c.Count("oracle_fallback_on_exported_eigensystem", 1)
+						}
+						if err == nil {
 							c17EigCache[cs.Model] = eig
 						}
 					}
 				} else {
-					eig, err = c17NewEig(cs.Model, r.pi)
+					var problem string
+					if eig, problem = c17IndepEig(cs.Model, r.pi); problem != "" {
+						eig, err = c17NewEig(cs.Model, r.pi)
+						c.Count("oracle_fallback_on_exported_eigensystem", 1)
+					} else {
+						c.Count("oracle_independent_eigensystem_user_freqs", 1)
+					}
 				}
 				if err != nil {
 					c.Fatal("oracle cannot obtain the eigen-system for %s: %v", jsonStr(cs), err)
@@ -908,11 +944,11 @@ func init() {
 			"Every input is executed once (a fresh model per execution) and its matrix is compared with the matrix of its smallest row/column rearrangement, so that every row order and every column order (weights travelling with their columns) of every alignment is covered; symmetries of an alignment (equal rows, equal columns) are checked on its own matrix. " +
 			"Clauses per matrix: square of the right size, no NaN, |d_ii| <= 1e-6, |d_ij - d_ji| <= 1e-6, 0 <= d_ij <= 20 (exact), d_ij <= 1e-6 when no column holds two different unambiguous residues, " +
 			"and for 0 <= d_ij < 20 of a pair with a difference: lnL(d') - lnL(d_ij) <= 1e-5*max(1,|lnL(d_ij)|) for every d' on the 200-point log grid of [1e-8, 20] and d' in {d(1-1e-3), d(1+1e-3), d-1e-4, d+1e-4} within [1e-8, 20], " +
-			"where lnL(d) = sum_ij F_ij log(pi_i P_ij(d)) is computed by the oracle: F = weighted frequencies of the unambiguous residue pairs over the columns taken into account, P(d) = R diag(f(lambda_k d)) R^-1 from the eigen-system exported by models/protein for the model and frequency vector in use, f = exp without gamma and (1 - lambda d/alpha)^-alpha with gamma. " +
+			"where lnL(d) = sum_ij F_ij log(pi_i P_ij(d)) is computed by the oracle: F = weighted frequencies of the unambiguous residue pairs over the columns taken into account, P(d) = R diag(f(lambda_k d)) R^-1 from an eigen-system the harness builds itself (rate matrix assembled from the model's exchangeabilities and the frequency vector in use, scaled to one substitution per unit time, decomposed by the harness' own Jacobi solver; the exported eigen-system of models/protein is only a fallback for frequencies outside the open simplex), f = exp without gamma and (1 - lambda d/alpha)^-alpha with gamma. " +
 			"Permutation clauses: |image - permuted base| <= 1e-3*max(1, value) entrywise. " +
 			"An execution is non-trivial when at least one of its distances was below 20 and compared with the likelihood candidates on a non-empty F; distinct = distinct (alignment, weights, configuration).",
 		Assumptions: []string{
-			"the eigen-system exported by models/protein (Eigens, Pi) for a model and a frequency vector describes that model's substitution process; that it is a valid reversible process equal to the matrix exponential is property C18",
+			"the exchangeability tables of models/protein are the published ones (read from goalign's data functions, checked for symmetry only)",
 			"with empirical frequencies neither the statement nor the documentation fixes how the frequencies are estimated: the oracle reads the frequency vector the implementation's model ended up with (unexported field, by reflection) and asks models/protein for the eigen-system of the same matrix with these frequencies; order dependence of the estimate is caught by the permutation clauses",
 			"--rm-gaps is documented as 'do not take into account positions containing >=1 gaps': a column is dropped when any row has '-' there; whether X or * also count is not said, so where the two readings give different pair frequencies a distance is accepted when it is a maximiser under either",
 			"a pair whose only differences lie in dropped columns is not required to be at exactly 0 by the 'no unambiguous difference' clause; it is checked by the likelihood clause (an empty F makes every distance a maximiser)",
